@@ -62,6 +62,11 @@ static size_t gen_inif(unsigned char *x, size_t cap, const char *dir, const char
         } else if (r == 6) { l = (size_t) snprintf(line, sizeof line, " @INCLUDE inc1.conf\n"); }            /* not at the start of a line */
         else if (r == 7) { l = (size_t) snprintf(line, sizeof line, "@INCLUDE "); size_t m = 4000 + vh_rand() % 200; while (l < m) line[l++] = 'n'; line[l++] = '\n'; }
         else if (r == 8) { l = (size_t) snprintf(line, sizeof line, "@INCLUDE inc1.conf"); }                     /* last line without LF */
+        else if (r == 9) {                                       /* the directive quoted inside earlier lines, then for real: every occurrence is replaced */
+            int q = 1 + (int) (vh_rand() % 3);
+            for (int k = 0; k < q; k++) l += (size_t) snprintf(line + l, sizeof line - l, "# see also: @INCLUDE inc1.conf\n");
+            l += (size_t) snprintf(line + l, sizeof line - l, "@INCLUDE inc1.conf\n");
+        }
         else { l = gen_ini((unsigned char *) line, 600); if (l > 400) l = 400; }
         if (n + l < cap && n + l < 14000) { memcpy(x + n, line, l); n += l; }
     }
@@ -71,7 +76,9 @@ static void run_inif(const char *dir, long idx) {
     static unsigned char doc[70000], inc[70000];
     char mkd[700]; snprintf(mkd, sizeof mkd, "%s/sub", dir); mkdir(mkd, 0700);
     /* inc1 is plain or includes inc2; inc2 is plain or includes inc1 (mutual) or itself */
-    size_t l1 = (vh_rand() % 3) ? gen_ini(inc, 2000) : gen_inif(inc, 20000, dir, "inc2.conf"); put_file(dir, "inc1.conf", inc, l1);
+    size_t l1 = (vh_rand() % 3) ? gen_ini(inc, 2000) : gen_inif(inc, 20000, dir, "inc2.conf");
+    if (vh_rand() % 3 == 0) { memcpy(inc, "k=v\n", 4); l1 = 4; }          /* shorter than the directive that includes it: the text shrinks */
+    put_file(dir, "inc1.conf", inc, l1);
     size_t l2 = (vh_rand() % 3) ? gen_ini(inc, 2000) : gen_inif(inc, 20000, dir, "inc2.conf"); put_file(dir, "inc2.conf", inc, l2);
     size_t n = gen_inif(doc, sizeof doc, dir, "main.conf"); put_file(dir, "main.conf", doc, n);
     char path[700]; snprintf(path, sizeof path, "%s/main.conf", dir);
